@@ -121,10 +121,10 @@ Proof.
     + destruct p; [destruct exact|]; reflexivity.
     + pose proof (simp_atom_eval (QRepoTbl want) d Hl) as Ha. cbn [simp_atom] in Ha. cbn [simp simp_atom].
       destruct (multi_repo_cases (QRepoTbl want) (fun i _ => nth i want false)) as [E|[E|E]]; rewrite E in *; exact Ha.
-    + destruct names; [reflexivity|]. pose proof (simp_atom_eval (QRepoSet (l :: names)) d Hl) as Ha. cbn [simp_atom] in Ha. cbn [simp simp_atom].
-      destruct (multi_repo_cases (QRepoSet (l :: names)) (fun _ r => mem_runes (r_name r) (l :: names))) as [E|[E|E]]; rewrite E in *; exact Ha.
-    + destruct ids; [reflexivity|]. pose proof (simp_atom_eval (QRepoIDs (n :: ids)) d Hl) as Ha. cbn [simp_atom] in Ha. cbn [simp simp_atom].
-      destruct (multi_repo_cases (QRepoIDs (n :: ids)) (fun _ r => memN (r_id r) (n :: ids))) as [E|[E|E]]; rewrite E in *; exact Ha.
+    + pose proof (simp_atom_eval (QRepoSet names) d Hl) as Ha. cbn [simp_atom] in Ha. cbn [simp simp_atom].
+      destruct (multi_repo_cases (QRepoSet names) (fun _ r => mem_runes (r_name r) names)) as [E|[E|E]]; rewrite E in *; exact Ha.
+    + pose proof (simp_atom_eval (QRepoIDs ids) d Hl) as Ha. cbn [simp_atom] in Ha. cbn [simp simp_atom].
+      destruct (multi_repo_cases (QRepoIDs ids) (fun _ r => memN (r_id r) ids)) as [E|[E|E]]; rewrite E in *; exact Ha.
     + pose proof (simp_atom_eval (QRawConfig m) d Hl) as Ha. cbn [simp_atom] in Ha. cbn [simp simp_atom].
       destruct (multi_repo_cases (QRawConfig m) (fun _ r => (N.land m (r_rawmask r) =? m)%N)) as [E|[E|E]]; rewrite E in *; exact Ha.
     + simpl simp. pose proof (simp_atom_eval (QBranchesRepos l) d Hl) as Ha. simpl simp_atom in Ha.
@@ -195,10 +195,10 @@ Proof.
     + exact I.
     + destruct p; [destruct exact|]; simpl; reflexivity.
     + cbn [simp simp_atom]. destruct (multi_repo_cases (QRepoTbl want) (fun i _ => nth i want false)) as [E|[E|E]]; rewrite E; exact I.
-    + destruct names; [exact I|]. cbn [simp simp_atom].
-      destruct (multi_repo_cases (QRepoSet (l :: names)) (fun _ r => mem_runes (r_name r) (l :: names))) as [E|[E|E]]; rewrite E; exact I.
-    + destruct ids; [exact I|]. cbn [simp simp_atom].
-      destruct (multi_repo_cases (QRepoIDs (n :: ids)) (fun _ r => memN (r_id r) (n :: ids))) as [E|[E|E]]; rewrite E; exact I.
+    + cbn [simp simp_atom].
+      destruct (multi_repo_cases (QRepoSet names) (fun _ r => mem_runes (r_name r) names)) as [E|[E|E]]; rewrite E; exact I.
+    + cbn [simp simp_atom].
+      destruct (multi_repo_cases (QRepoIDs ids) (fun _ r => memN (r_id r) ids)) as [E|[E|E]]; rewrite E; exact I.
     + cbn [simp simp_atom]. destruct (multi_repo_cases (QRawConfig m) (fun _ r => (N.land m (r_rawmask r) =? m)%N)) as [E|[E|E]]; rewrite E; exact I.
     + cbn [simp simp_atom]. destruct (existsb _ (c_repos c)); [|exact I]. destruct (forallb _ l); exact I.
     + cbn [simp simp_atom]. destruct (lang_code c name); exact I.
